@@ -24,6 +24,9 @@ type Flags struct {
 	StaticAbstract bool // K-C08: interface-typed fields resolved against the static interface
 	CondIdentity   bool // K-C08: fragment conditions compared by identity with the container type
 	NullVarDefault bool // K-C04-nullvar: explicit null variable replaced by the default
+	// AllOcc is no defect model but a harness mode (back.Harness.AllOcc): a planted fault, keyed with occurrence 0, fires at
+	// every call with its (node, field, key)
+	AllOcc bool
 }
 
 func bigOf(v interface{}) (*big.Float, bool) {
